@@ -226,7 +226,8 @@ Definition core_did_parse (data : list N) : outcome (list N * list N) did_err :=
   else if ends_with_pct data then Err EMethodId
   else obind (tp_parse data) (fun c => check_validity data c).
 
-(* TryFrom<BaseDIDUrl> for CoreDID: check_validity on the third-party value, WITHOUT the two guards of CoreDID::parse *)
+(* TryFrom<BaseDIDUrl> for CoreDID: check_validity on a third-party value the CALLER parsed, WITHOUT the two guards of CoreDID::parse.
+   (Until fix "CoreDID is deserialised through CoreDID::parse" this was also serde's route; since then serde = core_did_parse.) *)
 Definition core_did_from_base (data : list N) : outcome (list N * list N) did_err :=
   obind (tp_parse data) (fun c => check_validity data c).
 
@@ -270,6 +271,28 @@ Definition did_url_parse (data : list N) : outcome did_url did_err :=
   let cb := {| o_method := o_method c; o_mid := o_mid c; o_path := o_path c; o_query := None; o_frag := None |} in
   obind (check_validity base cb) (fun mi =>
   Ok {| u_did := base; u_method := fst mi; u_mid := snd mi; u_path := up; u_query := uq; u_frag := uf |})))))))).
+
+(* DIDUrl::parse since fix: the fragment, the query and the path are split off here (str::split_once('#'), split_once('?'),
+   find('/')), the DID is CoreDID::parse of what is left, the components go through the setters.  The third-party parser is
+   no longer asked about the URL part (its percent handling: K_pct); `did_url_parse` above is what the pinned tree did and what
+   `join` still does with the receiver's own text. *)
+Fixpoint split_once (c : N) (l : list N) : option (list N * list N) :=
+  match l with
+  | [] => None
+  | x :: r => if x =? c then Some ([], r)
+              else match split_once c r with Some (a, b) => Some (x :: a, b) | None => None end
+  end.
+Fixpoint before_c (c : N) (l : list N) : list N := match l with [] => [] | x :: r => if x =? c then [] else x :: before_c c r end.
+Definition did_url_split_parse (data : list N) : outcome did_url did_err :=
+  let rf := match split_once 35 data with Some (r, f) => (r, Some f) | None => (data, None) end in
+  let rq := match split_once 63 (fst rf) with Some (r, q) => (r, Some q) | None => (fst rf, None) end in
+  let did := before_c 47 (fst rq) in
+  let path := skipn (length did) (fst rq) in
+  obind (core_did_parse did) (fun mi =>
+  obind (set_path (Some path)) (fun up =>
+  obind (set_query (match snd rq with Some x => Some (63 :: x) | None => None end)) (fun uq =>
+  obind (set_fragment (match snd rf with Some x => Some (35 :: x) | None => None end)) (fun uf =>
+  Ok {| u_did := did; u_method := fst mi; u_mid := snd mi; u_path := up; u_query := uq; u_frag := uf |})))).
 
 (* ---- DIDUrl::join (did_url.rs) over the third-party DID::join (did.rs: parse_relative + resolution::transform_references) ---- *)
 (* Core::parse_relative on the segment (NOT trimmed): parse_path, parse_query, parse_fragment from offset 0 *)
